@@ -74,6 +74,7 @@ type Env struct {
 	RespHookExtFor  map[peer.ID]bool // response hook returns extensions for responses from this peer
 	RespHookCalls   map[peer.ID]int
 	BlockHookCalls  int
+	BlockHookSaw    []string
 	BlockHookPause  int // block hook returns ErrPaused at this block index (1-based), 0 never
 	BlockHookErrAt  int
 	MaxLinksPerReq  uint64
@@ -172,6 +173,8 @@ func (e *Env) ProcessResponseHooks(p peer.ID, response graphsync.ResponseData) h
 
 func (e *Env) ProcessBlockHooks(p peer.ID, response graphsync.ResponseData, block graphsync.BlockData) hooks.UpdateResult {
 	e.BlockHookCalls++
+	// what the hook is shown about the response (must stem from the request's own peer)
+	e.BlockHookSaw = append(e.BlockHookSaw, fmt.Sprintf("%d/%d", response.Status(), response.Metadata().Length()))
 	if e.BlockHookErrAt != 0 && int(block.Index()) == e.BlockHookErrAt {
 		return hooks.UpdateResult{Err: fmt.Errorf("stub: block hook error")}
 	}
